@@ -31,7 +31,7 @@ Proof. exact to_of_nat. Qed.
 
 (* ===== *, /, ** act additively / linearly on natural parameters (any number of array elements) ===== *)
 Theorem C17_mul_additive : forall a b : qmsg, exact_family (fam a) -> exact_family (fam b) -> wf a -> wf b ->
-  Forall2 (Forall2 Qeq) (nat_of Qops (b_sum Qops a [b])) (map2 (vadd Qops) (nat_of Qops a) (nat_of Qops b)).
+  Forall2 (Forall2 Qeq) (nat_of Qops (b_sum Qops pinned a [b])) (map2 (vadd Qops) (nat_of Qops a) (nat_of Qops b)).
 Proof. exact sum_additive. Qed.
 
 Theorem C17_div_subtractive : forall a b : qmsg, exact_family (fam a) -> exact_family (fam b) -> wf a -> wf b ->
@@ -46,34 +46,55 @@ Proof. exact pow_linear. Qed.
    log_norm): refuted for the pinned code, holds exactly when log_norm a + log_norm b = 0 ===== *)
 Theorem C17_div_mul_refuted : exists a b : qmsg,
   exact_family (fam a) /\ exact_family (fam b) /\ wf a /\ wf b /\ same_shape a b /\
-  ~ msg_equiv (b_div Qops (b_sum Qops a [b]) b) a.
+  ~ msg_equiv (b_div Qops (b_sum Qops pinned a [b]) b) a.
 Proof. exact div_mul_refuted. Qed.
 
 Theorem C17_div_mul_partial : forall a b : qmsg, exact_family (fam a) -> exact_family (fam b) -> wf a -> wf b ->
   same_shape a b ->
-  msg_equiv_upto_lognorm (b_div Qops (b_sum Qops a [b]) b) a
-  /\ (lognorm (b_div Qops (b_sum Qops a [b]) b) == - lognorm b)%Q.
+  msg_equiv_upto_lognorm (b_div Qops (b_sum Qops pinned a [b]) b) a
+  /\ (lognorm (b_div Qops (b_sum Qops pinned a [b]) b) == - lognorm b)%Q.
 Proof. exact div_mul_partial. Qed.
 
 Theorem C17_div_mul_full_iff : forall a b : qmsg, exact_family (fam a) -> exact_family (fam b) -> wf a -> wf b ->
-  same_shape a b -> (msg_equiv (b_div Qops (b_sum Qops a [b]) b) a <-> (lognorm a + lognorm b == 0)%Q).
+  same_shape a b -> (msg_equiv (b_div Qops (b_sum Qops pinned a [b]) b) a <-> (lognorm a + lognorm b == 0)%Q).
 Proof. exact div_mul_full_iff. Qed.
 
 Theorem C17_mul_div_partial : forall a b : qmsg, exact_family (fam a) -> exact_family (fam b) -> wf a -> wf b ->
   same_shape a b ->
-  msg_equiv_upto_lognorm (b_sum Qops (b_div Qops a b) [b]) a /\ (lognorm (b_sum Qops (b_div Qops a b) [b]) == 0)%Q.
+  msg_equiv_upto_lognorm (b_sum Qops pinned (b_div Qops a b) [b]) a /\ (lognorm (b_sum Qops pinned (b_div Qops a b) [b]) == 0)%Q.
 Proof. exact mul_div_partial. Qed.
 
 (* a**j * a**k vs a**(j+k): same defect *)
 Theorem C17_pow_add_refuted : exists (a : qmsg) (j k : Q), exact_family (fam a) /\ wf a /\
-  ~ msg_equiv (b_sum Qops (b_pow Qops a j) [b_pow Qops a k]) (b_pow Qops a (j + k)%Q).
+  ~ msg_equiv (b_sum Qops pinned (b_pow Qops a j) [b_pow Qops a k]) (b_pow Qops a (j + k)%Q).
 Proof. exact pow_add_refuted. Qed.
 
 Theorem C17_pow_add_partial : forall (a : qmsg) (j k : Q), exact_family (fam a) -> wf a ->
-  msg_equiv_upto_lognorm (b_sum Qops (b_pow Qops a j) [b_pow Qops a k]) (b_pow Qops a (j + k)%Q)
-  /\ (lognorm (b_sum Qops (b_pow Qops a j) [b_pow Qops a k]) == 0)%Q
+  msg_equiv_upto_lognorm (b_sum Qops pinned (b_pow Qops a j) [b_pow Qops a k]) (b_pow Qops a (j + k)%Q)
+  /\ (lognorm (b_sum Qops pinned (b_pow Qops a j) [b_pow Qops a k]) == 0)%Q
   /\ (lognorm (b_pow Qops a (j + k)%Q) == (j + k) * lognorm a)%Q.
 Proof. exact pow_add_partial. Qed.
+
+(* PROPOSED repair (proposed_fixes/C17-product-keeps-lognorm, not applied: the current code is the `_partial` /
+   `_refuted` statements above): once the product carries log_norm the self-consistency laws hold IN FULL *)
+Theorem C17_div_mul_full_repaired : forall (V : variant), product_keeps_lognorm V = true ->
+  forall a b : qmsg, exact_family (fam a) -> exact_family (fam b) -> wf a -> wf b -> same_shape a b ->
+  msg_equiv (b_div Qops (b_sum Qops V a [b]) b) a.
+Proof. exact div_mul_full. Qed.
+
+Theorem C17_mul_div_full_repaired : forall (V : variant), product_keeps_lognorm V = true ->
+  forall a b : qmsg, exact_family (fam a) -> exact_family (fam b) -> wf a -> wf b -> same_shape a b ->
+  msg_equiv (b_sum Qops V (b_div Qops a b) [b]) a.
+Proof. exact mul_div_full. Qed.
+
+Theorem C17_pow_add_full_repaired : forall (V : variant), product_keeps_lognorm V = true ->
+  forall (a : qmsg) (j k : Q), exact_family (fam a) -> wf a ->
+  msg_equiv (b_sum Qops V (b_pow Qops a j) [b_pow Qops a k]) (b_pow Qops a (j + k)%Q).
+Proof. exact pow_add_full. Qed.
+
+Theorem C17_mul_zeros_full_repaired : forall (V : variant), product_keeps_lognorm V = true ->
+  forall a : qmsg, exact_family (fam a) -> wf a -> msg_equiv (b_sum Qops V a [b_zeros Qops a]) a.
+Proof. exact mul_zeros_full. Qed.
 
 (* powers of powers and the first power: full statements, log_norm included *)
 Theorem C17_pow_mul : forall (a : qmsg) (j k : Q), exact_family (fam a) -> wf a ->
@@ -89,42 +110,44 @@ Theorem C17_zeros_nat : forall a : qmsg, exact_family (fam a) -> wf a ->
 Proof. exact zeros_nat. Qed.
 
 Theorem C17_mul_zeros_partial : forall a : qmsg, exact_family (fam a) -> wf a ->
-  msg_equiv_upto_lognorm (b_sum Qops a [b_zeros Qops a]) a.
+  msg_equiv_upto_lognorm (b_sum Qops pinned a [b_zeros Qops a]) a.
 Proof. exact mul_zeros_partial. Qed.
 
 Theorem C17_mul_zeros_refuted : exists a : qmsg, exact_family (fam a) /\ wf a /\
-  ~ msg_equiv (b_sum Qops a [b_zeros Qops a]) a.
+  ~ msg_equiv (b_sum Qops pinned a [b_zeros Qops a]) a.
 Proof. exact mul_zeros_refuted. Qed.
 
 (* commutative / associative on natural parameters; sum_natural_parameters(b, c) = two products *)
 Theorem C17_mul_comm_nat : forall a b : qmsg, exact_family (fam a) -> exact_family (fam b) -> wf a -> wf b ->
-  Forall2 (Forall2 Qeq) (nat_of Qops (b_sum Qops a [b])) (nat_of Qops (b_sum Qops b [a])).
+  Forall2 (Forall2 Qeq) (nat_of Qops (b_sum Qops pinned a [b])) (nat_of Qops (b_sum Qops pinned b [a])).
 Proof. exact mul_comm_nat. Qed.
 
 Theorem C17_mul_assoc_nat : forall a b c : qmsg,
   exact_family (fam a) -> exact_family (fam b) -> exact_family (fam c) -> wf a -> wf b -> wf c ->
-  Forall2 (Forall2 Qeq) (nat_of Qops (b_sum Qops (b_sum Qops a [b]) [c])) (nat_of Qops (b_sum Qops a [b_sum Qops b [c]])).
+  Forall2 (Forall2 Qeq) (nat_of Qops (b_sum Qops pinned (b_sum Qops pinned a [b]) [c])) (nat_of Qops (b_sum Qops pinned a [b_sum Qops pinned b [c]])).
 Proof. exact mul_assoc_nat. Qed.
 
 Theorem C17_sum3 : forall a b c : qmsg,
   exact_family (fam a) -> exact_family (fam b) -> exact_family (fam c) -> wf a -> wf b -> wf c ->
-  msg_equiv (b_sum Qops a [b; c]) (b_sum Qops (b_sum Qops a [b]) [c]).
+  msg_equiv (b_sum Qops pinned a [b; c]) (b_sum Qops pinned (b_sum Qops pinned a [b]) [c]).
 Proof. exact sum3_is_two_products. Qed.
 
 (* fixed messages: arithmetic is the identity, every law holds with plain equality (any number type) *)
-Theorem C17_fixed_laws : forall (T : Type) (O : ops T) (a b : msg (T := T)) (j k : T), fam a = FFixed ->
-  b_div O (b_sum O a [b]) b = a /\ b_sum O (b_div O a b) [b] = a
-  /\ b_sum O (b_pow O a j) [b_pow O a k] = b_pow O a (oadd O j k) /\ b_sum O a [b_zeros O a] = a.
+Theorem C17_fixed_laws : forall (T : Type) (O : ops T) (V : variant) (a b : msg (T := T)) (j k : T), fam a = FFixed ->
+  b_div O (b_sum O V a [b]) b = a /\ b_sum O V (b_div O a b) [b] = a
+  /\ b_sum O V (b_pow O a j) [b_pow O a k] = b_pow O a (oadd O j k) /\ b_sum O V a [b_zeros O a] = a.
 Proof. exact @fixed_laws. Qed.
 
-(* the model variant the correspondence check compares with the code is the fully repaired one *)
-Theorem C17_code_variant : cur = repaired.
-Proof. exact eq_refl. Qed.
+(* the model variant `cur` the correspondence check compares with the code: the four repairs applied to /repo
+   are in, the two still proposed (product log_norm, transformed project) are off *)
+Theorem C17_code_variant :
+  keep_limits cur = true /\ tzeros_via_base cur = true /\ beta_project_ok cur = true /\ fixed_truediv_noop cur = true.
+Proof. exact (conj eq_refl (conj eq_refl (conj eq_refl eq_refl))). Qed.
 
 (* division by a real number is the identity as well (fix 7b98f8b: __truediv__ = _no_op) *)
 Theorem C17_fixed_sdiv : forall (T : Type) (O : ops T) (a : msg (T := T)) (c : T),
-  fam a = FFixed -> b_sdiv O repaired a c = a /\ b_sdiv O repaired (b_smul O a c) c = a.
-Proof. exact (fun T O a c H => @fixed_sdiv T O repaired a c H eq_refl). Qed.
+  fam a = FFixed -> b_sdiv O cur a c = a /\ b_sdiv O cur (b_smul O a c) c = a.
+Proof. exact (fun T O a c H => @fixed_sdiv T O cur a c H eq_refl). Qed.
 
 (* history: before that fix only the py2 name __div__ was a no-op and (f * c) / c was not f *)
 Theorem C17_fixed_sdiv_legacy_refuted : exists (a : qmsg) (c : Q), fam a = FFixed /\
@@ -160,15 +183,15 @@ Proof. exact @setitem_pointwise. Qed.
 
 (* limits of a transformed message survive every expression (fix f7f8cba) *)
 Theorem C17_transformed_limits : forall (T : Type) (O : ops T) (env : list (mval (T := T))) (e : expr (T := T)) v,
-  eval O repaired env e = Some v ->
+  eval O cur env e = Some v ->
   exists v0, nth_error env (leftvar e) = Some v0 /\ tlimits v = tlimits v0.
-Proof. exact (fun T O env e => @limits_preserved T O repaired env e eq_refl). Qed.
+Proof. exact (fun T O env e => @limits_preserved T O cur env e eq_refl). Qed.
 
 (* zeros_like of a transformed message is the zeros_like of its base under the same wrapper (fix 6f95d0b);
    with C17_zeros_nat / C17_normal_zeros its natural parameters are zero and it is the unit of the product *)
 Theorem C17_transformed_zeros : forall (T : Type) (O : ops T) s i l h (a : msg (T := T)),
-  eval O repaired [MT s i l h a] (EZeros (EVar 0)) = Some (MT s i l h (b_zeros O a)).
-Proof. exact (fun T O s i l h a => @transformed_zeros T O repaired s i l h a eq_refl eq_refl). Qed.
+  eval O cur [MT s i l h a] (EZeros (EVar 0)) = Some (MT s i l h (b_zeros O a)).
+Proof. exact (fun T O s i l h a => @transformed_zeros T O cur s i l h a eq_refl eq_refl). Qed.
 
 (* history: the pinned code lost the limits (witness + exact description), any variant keeping them is fine *)
 Theorem C17_transformed_limits_legacy_refuted : exists (env : list (mval (T := Q))) (e : expr (T := Q)) v v0,
@@ -187,7 +210,7 @@ Proof. exact @limits_preserved. Qed.
 
 Theorem C17_transformed_div_mul : forall (T : Type) (O : ops T) (V : variant) s i l h (a : msg (T := T)) s' i' l' h' (b : msg (T := T)),
   eval O V [MT s i l h a; MT s' i' l' h' b] (EDiv (EMul (EVar 0) (EVar 1)) (EVar 1))
-  = Some (rewrap V s i l h (b_div O (b_sum O a [b]) b)).
+  = Some (rewrap V s i l h (b_div O (b_sum O V a [b]) b)).
 Proof. exact @transformed_div_mul. Qed.
 
 (* zeros_like of a transformed normal: natural parameters are nan in the pinned code (binary64 witness) *)
@@ -205,11 +228,11 @@ Theorem C17_normal_roundtrip_natural : forall e : list R, neg2 e -> to_nat Rops 
 Proof. exact normal_to_of. Qed.
 
 Theorem C17_normal_mul_additive : forall a b : rmsg, normal_valid a -> nvalid b ->
-  nat_of Rops (b_sum Rops a [b]) = map2 (vadd Rops) (nat_of Rops a) (nat_of Rops b) /\ normal_valid (b_sum Rops a [b]).
+  nat_of Rops (b_sum Rops pinned a [b]) = map2 (vadd Rops) (nat_of Rops a) (nat_of Rops b) /\ normal_valid (b_sum Rops pinned a [b]).
 Proof. exact normal_sum_additive. Qed.
 
 Theorem C17_normal_div_mul : forall a b : rmsg, normal_valid a -> nvalid b -> length (elems a) = length (elems b) ->
-  elems (b_div Rops (b_sum Rops a [b]) b) = elems a.
+  elems (b_div Rops (b_sum Rops pinned a [b]) b) = elems a.
 Proof. exact normal_div_mul_elems. Qed.
 
 (* partial: positive exponents only -- NormalMessage is not closed under non-positive powers *)
@@ -218,7 +241,7 @@ Theorem C17_normal_pow_partial : forall (a : rmsg) (k : R), normal_valid a -> (0
 Proof. exact normal_pow_linear. Qed.
 
 Theorem C17_normal_pow_add_partial : forall (a : rmsg) (j k : R), normal_valid a -> (0 < j)%R -> (0 < k)%R ->
-  elems (b_sum Rops (b_pow Rops a j) [b_pow Rops a k]) = elems (b_pow Rops a (j + k)%R).
+  elems (b_sum Rops pinned (b_pow Rops a j) [b_pow Rops a k]) = elems (b_pow Rops a (j + k)%R).
 Proof. exact normal_pow_add_elems. Qed.
 
 Theorem C17_normal_pow_mul_partial : forall (a : rmsg) (j k : R), normal_valid a -> (0 < j)%R ->
@@ -231,12 +254,12 @@ Proof. exact normal_negative_power_refuted. Qed.
 
 (* whole-message statements for NormalMessage: class, id, limits, shape, parameters and the (defective) log_norm *)
 Theorem C17_normal_div_mul_msg_partial : forall a b : rmsg, normal_valid a -> nvalid b -> length (elems a) = length (elems b) ->
-  let r := b_div Rops (b_sum Rops a [b]) b in
+  let r := b_div Rops (b_sum Rops pinned a [b]) b in
   fam r = FNormal /\ bmeta r = bmeta a /\ elems r = elems a /\ lognorm r = (- lognorm b)%R.
 Proof. exact normal_div_mul_partial. Qed.
 
 Theorem C17_normal_pow_add_msg_partial : forall (a : rmsg) (j k : R), normal_valid a -> (0 < j)%R -> (0 < k)%R ->
-  let l := b_sum Rops (b_pow Rops a j) [b_pow Rops a k] in
+  let l := b_sum Rops pinned (b_pow Rops a j) [b_pow Rops a k] in
   let r := b_pow Rops a (j + k)%R in
   fam l = fam r /\ bmeta l = bmeta r /\ elems l = elems r /\ lognorm l = 0%R /\ lognorm r = ((j + k) * lognorm a)%R.
 Proof. exact normal_pow_add_partial. Qed.
@@ -245,7 +268,7 @@ Proof. exact normal_pow_add_partial. Qed.
 Theorem C17_normal_zeros : forall a : rmsg, normal_valid a ->
   fam (b_zeros Rops a) = FNatural /\ bmeta (b_zeros Rops a) = bmeta a
   /\ nat_of Rops (b_zeros Rops a) = map (map (fun _ => 0%R)) (nat_of Rops a)
-  /\ elems (b_sum Rops a [b_zeros Rops a]) = elems a /\ bmeta (b_sum Rops a [b_zeros Rops a]) = bmeta a.
+  /\ elems (b_sum Rops pinned a [b_zeros Rops a]) = elems a /\ bmeta (b_sum Rops pinned a [b_zeros Rops a]) = bmeta a.
 Proof. exact normal_zeros. Qed.
 
 (* ===== projection: weighted moment matching ===== *)
@@ -259,6 +282,19 @@ Theorem C17_normal_project_end_to_end : forall xs lws : list R, length xs = leng
   exists sg, proj_col Rops FNormal xs lws = ([m1; sg], ln (W / INR (length lws)))
              /\ (0 < sg)%R /\ (sg * sg + m1 * m1 = m2)%R.
 Proof. exact normal_proj_col. Qed.
+
+(* PROPOSED repair (proposed_fixes/C17-transformed-project, not applied): TransformedMessage.project hands
+   self._transform(samples) to the base projection, so C17_normal_project_end_to_end applies to the images of the
+   samples in the base space; today (`cur`) the raw samples are used *)
+Theorem C17_transformed_project_repaired : forall (O : ops float) (V : variant) (stack : list (transform float))
+  (cols : list (list float * list float)), tproject_transforms V = true ->
+  tproj_cols O V stack cols = map (fun c => (map (fun x => fst (transform_det O stack x)) (fst c), snd c)) cols.
+Proof. exact tproj_cols_repaired. Qed.
+
+(* the code as it is (flag off): the raw samples are projected *)
+Theorem C17_transformed_project_legacy : forall (O : ops float) (V : variant) (stack : list (transform float))
+  (cols : list (list float * list float)), tproject_transforms V = false -> tproj_cols O V stack cols = cols.
+Proof. exact tproj_cols_legacy. Qed.
 
 (* gamma moment matching, assuming invpsilog inverts psi(x) - ln x (checked numerically against a root finder) *)
 Theorem C17_gamma_project : forall psi invpl : R -> R,
